@@ -21,3 +21,4 @@ import Sml.Props.C15Vec
 #print axioms Sml.C15.reference_buffer_independent_noOom
 #print axioms Sml.C15.fallible_push_eq_reference
 #print axioms Sml.C15.fallible_push_eq_decode
+#print axioms Sml.C15.fallible_cap_push_eq
